@@ -161,6 +161,14 @@ def gen_cases(rng, tier):
                 recs.append(["rec", [base[1][0], fs2], [V.gen_value(r, t, none_chance=15) for t, _ in fs2], V.gen_meta(r)])
             else:
                 recs.append(_gen_rec(r))
+        if r.chance(15):
+            # two record types of one name whose descriptor identifiers (name + 32-bit hash) coincide
+            cx = [["t/x", [["stringlist", "a"], ["string", "b"]]], ["t/x", [["string", "a"], ["string", "listb"]]]]
+            if r.chance(50):
+                cx.reverse()
+            extra = [["rec", d_, [V.gen_value(r, t, none_chance=15) for t, _ in d_[1]], V.gen_meta(r)] for d_ in cx + cx[:1]]
+            pos = r.randint(0, len(recs))
+            recs = recs[:pos] + extra + recs[pos:]
         names = [fn for rec in recs for _, fn in rec[1][1]]
         pool = names + ["missing", "_source", "_version"]
         w = r.below(3)
@@ -251,7 +259,17 @@ def run_real(case):
                 except AttributeError:
                     vals.append(None)
             del flat
+            # the flat dictionary view (what projections, extend_record, init_from_record and the text-oriented writers
+            # consume) and its selections
+            try:
+                asd = [[kk, V.observe(v)] for kk, v in g._asdict().items()]
+                sel = keys[: max(1, len(keys) // 2)]
+                asd_sel = [[kk, V.observe(v)] for kk, v in g._asdict(fields=sel).items()]
+                asd_exc = [[kk, V.observe(v)] for kk, v in g._asdict(exclude=sel).items()]
+            except Exception as e:
+                asd, asd_sel, asd_exc, sel = {"error": type(e).__name__}, None, None, []
             res = {"inputs": before, "inputs_after": [obs_rec(x) for x in g.records], "keys": keys, "values": vals,
+                   "asdict": asd, "asdict_sel": asd_sel, "asdict_exc": asd_exc, "sel": sel,
                    "output": {"name": g._desc.name, "fields": [list(t) for t in g._desc.get_field_tuples()]}}
             if case.get("assign"):
                 fn, spec = case["assign"]
@@ -441,6 +459,21 @@ def oracle(case, obs):
             w = [vals[kk]] if kk in vals else None
             if v != w:
                 return f"grouped.{kk} is {json.dumps(v)[:70]} instead of the first member's {json.dumps(w)[:70]}"
+        if "asdict" in obs:
+            if isinstance(obs["asdict"], dict):
+                return f"grouped._asdict() raised {obs['asdict']['error']}"
+            for what, got, pred in (("_asdict()", obs["asdict"], lambda kk: True),
+                                    ("_asdict(fields=...)", obs["asdict_sel"], lambda kk: kk in obs["sel"]),
+                                    ("_asdict(exclude=...)", obs["asdict_exc"], lambda kk: kk not in obs["sel"])):
+                for kk, v in got:
+                    if not pred(kk):
+                        return f"grouped.{what} holds {kk}, which was not selected"
+                    if kk in vals and v != vals[kk]:
+                        return (f"grouped.{what}[{kk}] is {json.dumps(v)[:70]} instead of the first member's "
+                                f"{json.dumps(vals[kk])[:70]}")
+                missing = [kk for kk in vals if pred(kk) and kk not in [g_[0] for g_ in got]]
+                if missing:
+                    return f"grouped.{what} lacks {missing[:3]}"
         a = obs.get("assign")
         if a:
             fn = case["assign"][0]
